@@ -24,8 +24,8 @@ type PreProposal struct {
 	// (Passed store, completed-yes, waiting for finalisation), failed (Failed store, completed-no, waiting
 	// for finalisation), cancelled (Failed store, outcome cancelled: funders may withdraw)
 	Stage    string    `json:"stage"`
-	Proposer int       `json:"proposer"` // user index
-	Funds    []PreFund `json:"funds"`    // fund records; the amounts are escrowed, i.e. taken out of the funders' genesis balances
+	Proposer int       `json:"proposer"`           // user index
+	Funds    []PreFund `json:"funds"`              // fund records; the amounts are escrowed, i.e. taken out of the funders' genesis balances
 	Goal     string    `json:"goal,omitempty"`     // base units; "" = Params.PropFundingGoal
 	PassPct  int       `json:"pass_pct,omitempty"` // 0 = Params.PropPassPct
 	// deadlines as heights of the new chain (the dump rebases those of active proposals on its own height
@@ -100,6 +100,9 @@ func preOpinion(s string) (governance.VoteOpinion, bool) {
 // DumpGovProposalsToFile writes: the proposal record, the store it lives in, its vote records (validator
 // address, opinion, power) and its fund records (funder, amount).
 func GenesisProposals(p Params, u *Universe) []governance.GovProposal {
+	if len(p.PreProposals) == 0 {
+		return nil // the document of a genesis without proposals stays byte-identical to what it was before this section existed
+	}
 	out := []governance.GovProposal{}
 	nv := len(p.ValPower)
 	for _, pp := range p.PreProposals {
